@@ -13,6 +13,7 @@ import GoProbeModel.Spec.C15
 import GoProbeModel.Spec.C03
 import GoProbeModel.Spec.C09
 import GoProbeModel.Spec.C24
+import GoProbeModel.Spec.C31
 
 /-!
 `gpjudge`: executable specs. Reads lines `<Cxx> <case fields…> => <implementation output>` and
@@ -33,5 +34,6 @@ def main : IO Unit := DriverLoop.runJudge [
   ("C15", C15.judge),
   ("C03", C03.judge),
   ("C09", C09.judge),
-  ("C24", C24.judge)
+  ("C24", C24.judge),
+  ("C31", C31.judge)
 ]
